@@ -6,7 +6,7 @@ import ast
 from sa.astx import call_attr, call_name, dotted, src, walk_local
 from sa.selftest import Mutant, Silent
 from sa.source import AnalysisError, methods, mro_lookup
-from sa.props._lib_j import MiniStop, body_always_entered, leaf_values, mini_call, normalise, rsrc, run_sections, asserted_eq, asserted_in, edge_asserts, local_defs, node_calls, normal_exits, params
+from sa.props._lib_j import MiniStop, body_always_entered, leaf_values, mini_call, normalise, resolve, rsrc, run_sections, asserted_eq, asserted_in, edge_asserts, local_defs, node_calls, normal_exits, params
 
 PROPERTY = "C54"
 FTPM = "protocols/ftp.py"
@@ -78,7 +78,19 @@ def _defs_in_scope(name, node):
 
 
 def _is_tosegments(e):
-    return isinstance(e, ast.Call) and call_name(e) == "toSegments" and len(e.args) == 2 and src(e.args[0]) == "self.workingDirectory"
+    """e is toSegments(self.workingDirectory, <anything>) - or one element of a list / comprehension every element of which is
+    (``a, b = [toSegments(self.workingDirectory, n) for n in (x, y)]``)"""
+    if isinstance(e, ast.Call) and call_name(e) == "toSegments" and len(e.args) == 2 and src(e.args[0]) == "self.workingDirectory":
+        return True
+    if isinstance(e, ast.Subscript) and isinstance(e.slice, ast.Constant) and isinstance(e.slice.value, int):
+        base = e.value
+        if isinstance(base, (ast.ListComp, ast.GeneratorExp)):
+            return _is_tosegments(base.elt)
+        if isinstance(base, (ast.List, ast.Tuple)) and base.elts:
+            return all(_is_tosegments(x) for x in base.elts)
+        if isinstance(base, ast.Call) and call_name(base) in ("list", "tuple") and len(base.args) == 1:
+            return _is_tosegments(ast.Subscript(value=base.args[0], slice=e.slice, ctx=ast.Load()))
+    return False
 
 
 def _s_protocol(ctx, S):
@@ -198,13 +210,30 @@ def _s_tosegments(ctx, S):
     ctx.need(len(loops) == 1, "single loop in toSegments")
     lp = loops[0]
     var = src(lp.ast.target)
-    split_ok = src(lp.ast.iter) == f"{path}.split('/')"
+    # the iterable: <path>.split("/") itself, or a comprehension / generator over it that only FILTERS components (its element is its own variable);
+    # the filter conditions then hold for the loop variable as if they were guards inside the loop
+    it_ = resolve(lp.ast.iter, local_defs(f, track_mutation=False))
+    pre_neq = set()
+    if isinstance(it_, (ast.ListComp, ast.GeneratorExp)) and len(it_.generators) == 1 and isinstance(it_.generators[0].target, ast.Name) \
+            and isinstance(it_.elt, ast.Name) and it_.elt.id == it_.generators[0].target.id:
+        cv = it_.generators[0].target.id
+        for cond in it_.generators[0].ifs:
+            for t_ in (cond.values if isinstance(cond, ast.BoolOp) and isinstance(cond.op, ast.And) else [cond]):
+                if isinstance(t_, ast.Name) and t_.id == cv:
+                    pre_neq.add("")                                            # truthy component
+                elif isinstance(t_, ast.Compare) and len(t_.ops) == 1 and src(t_.left) == cv:
+                    if isinstance(t_.ops[0], ast.NotEq) and isinstance(t_.comparators[0], ast.Constant):
+                        pre_neq.add(t_.comparators[0].value)
+                    elif isinstance(t_.ops[0], ast.NotIn) and isinstance(t_.comparators[0], (ast.Tuple, ast.List, ast.Set)):
+                        pre_neq |= {x.value for x in t_.comparators[0].elts if isinstance(x, ast.Constant)}
+        it_ = it_.generators[0].iter
+    split_ok = src(it_) == f"{path}.split('/')"
     apps = node_calls(g, lambda c: call_name(c) == segs + ".append")
     ctx.check(bool(apps), "normalise/appends", q, "toSegments never appends a segment")
     for n, c in apps:
         where = ctx.construct(q, f"{segs}.append(<segment>)")
         ctx.check(len(c.args) == 1 and src(c.args[0]) == var, "normalise/appends-own-segment", where, f"something other than the current segment is appended: {src(c)}")
-        neq = set()
+        neq = set(pre_neq)
         notin = set()
         for t, lab in edge_asserts(g, n):
             e = asserted_eq(t, "T" if lab == "F" else "F")      # edge establishes  a != b
@@ -774,6 +803,12 @@ SILENT = [
            "        pending = iter(segments)\n        while True:\n            try:\n                name = next(pending)\n            except StopIteration:\n                return path\n            path = path.child(name)"),
     Silent("coercion-decodes-into-a-local-first", FPM, "        if encoding is None:\n            encoding = sys.getfilesystemencoding()\n        return path.decode(encoding, errors=\"surrogateescape\")",
            "        if encoding is None:\n            encoding = sys.getfilesystemencoding()\n        text = path.decode(encoding, errors=\"surrogateescape\")\n        return text"),
+    Silent("rename-segments-by-comprehension", _F, "            fromsegs = toSegments(self.workingDirectory, fromName)\n            tosegs = toSegments(self.workingDirectory, toName)\n",
+           "            fromsegs, tosegs = [toSegments(self.workingDirectory, each) for each in (fromName, toName)]\n"),
+    Silent("shell-boilerplate-in-one-varargs-helper", _F,
+           "        try:\n            os.rmdir(p.path)\n        except OSError as e:\n            return errnoToFailure(e.errno, path)\n        except BaseException:\n            return defer.fail()\n        else:\n            return defer.succeed(None)\n\n    def removeFile",
+           "        return self._guarded(path, os.rmdir, p.path)\n\n    def _guarded(self, path, operation, *args):\n        try:\n            outcome = operation(*args)\n        except OSError as e:\n            return errnoToFailure(e.errno, path)\n        except BaseException:\n            return defer.fail()\n        return defer.succeed(outcome)\n\n    def removeFile"),
+    Silent("toSegments-filters-components-up-front", _F, "    for s in path.split(\"/\"):\n        if s == \".\" or s == \"\":\n            continue\n        elif s == \"..\":", "    for s in [part for part in path.split(\"/\") if part and part != \".\"]:\n        if s == \"..\":"),
     Silent("cwd-copied-with-list", _F, "        segs = cwd[:]\n", "        segs = list(cwd)\n"),
     Silent("toSegments-guard-clauses-and-temporaries", _F,
            "    if path.startswith(\"/\"):\n        segs = []\n    else:\n        segs = cwd[:]\n\n    for s in path.split(\"/\"):\n        if s == \".\" or s == \"\":\n            continue\n        elif s == \"..\":\n            if segs:\n                segs.pop()\n            else:\n                raise InvalidPath(cwd, path)\n        elif \"\\0\" in s or \"/\" in s:\n            raise InvalidPath(cwd, path)\n        else:\n            segs.append(s)\n    return segs\n",
